@@ -17,6 +17,7 @@ using ref::i128;
 
 template<typename S> struct Traits; // generated
 enum E8 { E8_A, E8_B, E8_C };
+enum class E64 : unsigned long long { A = 0, B = 1ull << 40, C = 0x123456789aull, D = 0x8000000000000005ull, E = 0x7fffffffffffffffull };
 struct LeafLayout { std::string name; size_t offset; size_t size; };
 struct Layout { size_t size; size_t align; std::vector<LeafLayout> leaves; };
 
@@ -51,6 +52,7 @@ template<typename T, typename GT>
 inline T gen_app_value(mon::Rng& r, int leaf, int mode)
 {
   if constexpr (std::is_same_v<T, bool>) return mode == 0 ? (leaf & 1) : r.coin();
+  else if constexpr (std::is_enum_v<T> && sizeof(T) == 8) { static const unsigned long long vs[] = { 0, 1ull << 40, 0x123456789aull, 0x8000000000000005ull, 0x7fffffffffffffffull }; return static_cast<T>(vs[(leaf + r.below(5)) % 5]); }
   else if constexpr (std::is_enum_v<T>) return static_cast<T>((leaf + static_cast<int>(r.below(3))) % 3);
   else if constexpr (std::is_floating_point_v<T>) return mode == 0 ? static_cast<T>(1000 + leaf) + static_cast<T>(0.25) : static_cast<T>(static_cast<double>(static_cast<int64_t>(r())) / 7.0);
   else {
